@@ -23,6 +23,8 @@ import (
 	"github.com/zeromicro/go-zero/internal/verifh"
 )
 
+var c16GoBase int
+
 type c16Src struct{ next int64 }
 
 func (s *c16Src) Int63() int64 { return s.next }
@@ -86,6 +88,10 @@ func c16GenCache(r *verifh.Rng) []verifh.Section {
 		for j := 0; j < nops; j++ {
 			k := r.Intn(nkeys)
 			switch x := r.Intn(100); {
+			case x < 5:
+				// Cache.Set: the configured default expiry
+				ops = append(ops, fmt.Sprintf("setd %d %d %d", k, val, jit()))
+				val++
 			case x < 25:
 				e := expire * 1000000000
 				if r.Chance(1, 3) {
@@ -136,7 +142,16 @@ func c16GenCache(r *verifh.Rng) []verifh.Section {
 func c16StartCache(cfg verifh.Cfg) (func(op []string) string, func()) {
 	limit := cfg.Int("limit", 0)
 	expire := time.Duration(verifh.Atoi64(cfg.Str("expire", "1000000000")))
-	c, err := NewCache(expire, WithLimit(limit))
+	opt := WithLimit(limit)
+	if c16OptMemo != nil {
+		// multi-instance section: caches with the same limit are built from one CacheOption value
+		if o, ok := c16OptMemo[limit]; ok {
+			opt = o
+		} else {
+			c16OptMemo[limit] = opt
+		}
+	}
+	c, err := NewCache(expire, opt)
 	if err != nil {
 		panic(err)
 	}
@@ -181,10 +196,12 @@ func c16StartCache(cfg verifh.Cfg) (func(op []string) string, func()) {
 	}
 	sync()
 	time.Sleep(time.Millisecond)
-	base := runtime.NumGoroutine()
+	// quiescent goroutine count; shared, because a later instance of a multi-instance section adds its own
+	// (wheel loop, statistics loop) while the earlier ones are idle
+	c16GoBase = runtime.NumGoroutine()
 	settle := func() string {
 		sync()
-		if !verifh.SettleGoroutines(base, 5*time.Second) {
+		if !verifh.SettleGoroutines(c16GoBase, 5*time.Second) {
 			return " TIMEOUT-goroutines"
 		}
 		sync()
@@ -233,6 +250,11 @@ func c16StartCache(cfg verifh.Cfg) (func(op []string) string, func()) {
 			ns := c.unstableExpiry.AroundDuration(exp) // probe: same source value, same float computation
 			c.SetWithExpire(c16Key(verifh.Atoi(op[1])), verifh.Atoi(op[2]), exp)
 			return fmt.Sprintf("ns=%d %s", int64(ns), events(-1))
+		case len(op) == 4 && op[0] == "setd":
+			src.next = verifh.Atoi64(op[3])
+			ns := c.unstableExpiry.AroundDuration(expire)
+			c.Set(c16Key(verifh.Atoi(op[1])), verifh.Atoi(op[2]))
+			return fmt.Sprintf("ns=%d %s", int64(ns), events(-1))
 		case len(op) == 2 && op[0] == "get":
 			v, ok := c.Get(c16Key(verifh.Atoi(op[1])))
 			if !ok {
@@ -275,8 +297,9 @@ func c16StartCache(cfg verifh.Cfg) (func(op []string) string, func()) {
 				}
 			}
 			c.lock.Unlock()
-			return fmt.Sprintf("size=%d lru=%s timers=%d hit=%d miss=%d%s", size, keysS(lru, false), tw.timers.Size(),
-				atomic.LoadUint64(&c.stats.hit), atomic.LoadUint64(&c.stats.miss), t)
+			// cb: the size the statistics loop would report (newCacheStat's callback = Cache.size)
+			return fmt.Sprintf("size=%d lru=%s timers=%d hit=%d miss=%d cb=%d%s", size, keysS(lru, false), tw.timers.Size(),
+				atomic.LoadUint64(&c.stats.hit), atomic.LoadUint64(&c.stats.miss), c.stats.sizeCallback(), t)
 		}
 		return "bad-op"
 	}
@@ -292,6 +315,7 @@ func c16StartCache(cfg verifh.Cfg) (func(op []string) string, func()) {
 			return out
 		}, func() {
 			tw.Stop()
-			verifh.SettleGoroutines(base-1, time.Second)
+			c16GoBase--
+			verifh.SettleGoroutines(c16GoBase, time.Second)
 		}
 }
